@@ -30,7 +30,8 @@
    attributes).
    Future work (statements only, nothing assumed):
      - the precise version: parse (a ++ b) = la ++ map (shift (count_nl a) (next id of a - 1)) lb, where
-       shift adds to every non-zero id and line (the prefix scopes of dotted names carry 0/0); the proof
+       shift adds to every id and to every non-zero line (the prefix scopes of dotted names carry the id of
+       the object they lead to - it shifts like every other id - and line 0, which stays 0); the proof
        is cobj_shift_ids with the relation "shifted" instead of "equal after erasure";
      - value_stops (p ++ x) from value_stops p and value_stops x for complete p (needs the section
        below relative to an arbitrary start line instead of line 1);
@@ -852,10 +853,10 @@ Proof.
   destruct rest as [|c2 rest].
   - cbn [wrap_dotted]. destruct first; [reflexivity|]. destruct x; reflexivity.
   - change (wrap_dotted first (c :: c2 :: rest) x)
-      with (Scp (mkhdr c false 0 (negb first) 0 0) [wrap_dotted false (c2 :: rest) x] []).
+      with (Scp (mkhdr c false 0 (negb first) (opid (ohdr x)) 0) [wrap_dotted false (c2 :: rest) x] []).
     change (wrap_dotted first (c :: c2 :: rest) (erase_obj x))
-      with (Scp (mkhdr c false 0 (negb first) 0 0) [wrap_dotted false (c2 :: rest) (erase_obj x)] []).
-    cbn [erase_obj map]. rewrite IH. reflexivity.
+      with (Scp (mkhdr c false 0 (negb first) (opid (ohdr (erase_obj x))) 0) [wrap_dotted false (c2 :: rest) (erase_obj x)] []).
+    cbn [erase_obj map]. rewrite IH. destruct x; reflexivity.
 Qed.
 Lemma erase_obj_adopt : forall x, erase_obj (adopt x) = adopt (erase_obj x).
 Proof.
